@@ -34,15 +34,16 @@ Print Assumptions C12_deterministic.
        parse_bytes il id (print_full l ds1 ++ c) = Err pos k defs ->
        prefix (elaborate_full l ds1) defs /\ length (print_full l ds1) <= offset pos.
 
-   PROVED (below): for the source class of Dbc/Printer.v (VERSION, BS_, BU_, unknown lines; plain
-   layout) and every continuation [c] that is empty or still begins with an identifier followed by an
-   ASCII non-identifier character (the first token of the corrupted definition is scannable). Without
-   that side condition the statement is false of the code by design of the one-token lookahead: an
+   PROVED (below): for the source class of Dbc/Printer.v (VERSION, BS_, BU_, BO_/SG_, unknown lines;
+   plain layout) and every continuation [c] that is empty or still begins with an identifier other
+   than SG_ (which would continue a preceding BO_) followed by an ASCII non-identifier character (the
+   first token of the corrupted definition is scannable). Without that side condition the statement is false of the code by design of the one-token lookahead: an
    illegal byte directly after a BS_, NS_, BO_ or SG_ definition is raised while that definition
    peeks for its optional continuation, before it is appended to Defs(). *)
 Theorem C12_error_local_partial : forall (il id : Z -> bool) (ds1 : list sdef) (c : list Z) pos k defs,
   Forall wf_sdef ds1 -> Forall (fun b => 0 <= b < 256) c ->
-  (c = [] \/ exists kw ch r, c = kw ++ ch :: r /\ is_ident kw /\ ascii ch /\ idc ch = false) ->
+  (c = [] \/ exists kw ch r, c = kw ++ ch :: r /\ is_ident kw /\ ascii ch /\ idc ch = false
+                            /\ bytes_eqb kw kw_signal = false) ->
   parse_bytes il id (print ds1 ++ c) = Err pos k defs ->
   (exists more, defs = elaborate ds1 ++ more)
   /\ Z.of_nat (List.length (print ds1)) <= p_offset pos <= Z.of_nat (List.length (print ds1 ++ c)).
@@ -55,6 +56,12 @@ Theorem C12_error_local_refuted : forall il id,
   parse_bytes_old il id (txt ("BO_ 1 M: 8 N" ++ LF ++ "$" ++ LF)) = Err (at_ 2 1 13) ESyntax []
   /\ parse_bytes il id (txt ("BO_ 1 M: 8 N" ++ LF ++ "$" ++ LF)) = Err (at_ 2 1 13) ESyntax [f11_message].
 Proof. exact (fun il id => conj (f11_old il id) (f11_fixed il id)). Qed.
+
+(** non-vacuity of the locality hypotheses: ds1 = [BS_:], c = "CM_ $" (identifier CM_, then a space) *)
+Example C12_error_local_nonvacuous : forall il id,
+  parse_bytes il id (print [SBitTiming None] ++ [67; 77; 95; 32; 36])
+  = Err {| p_line := 2; p_column := 5; p_offset := 9 |} ESyntax (elaborate [SBitTiming None]).
+Proof. exact error_local_instance. Qed.
 
 (** non-vacuity: an error outcome exists (so the position clause is not vacuous), and a success *)
 Example C12_nonvacuous : forall il id,
